@@ -46,12 +46,14 @@ IsIndexAnn(ann) == ann = "Index[int]"
 IsOptional(ann) == ann = "Optional[Series[int]]"
 
 (* Field(...) variants: options and keyword checks *)
-FNullable(f) == f = "nullable_coerce"
+FNullable(f) == f \in {"nullable_coerce", "ge0_nona"}
 FCoerce(f) == f = "nullable_coerce"
 FUnique(f) == f = "unique"
 FAlias(f) == IF f = "alias_x" THEN "x" ELSE None
-FChecks(f) == CASE f = "ge0" -> << [k |-> "ge", arg |-> 0] >>
-                [] f = "ge1_le5" -> << [k |-> "ge", arg |-> 1], [k |-> "le", arg |-> 5] >>
+(* Field(ge=0, nullable=True, ignore_na=False): the check options given to Field belong to its keyword checks *)
+FChecks(f) == CASE f = "ge0" -> << [k |-> "ge", arg |-> 0, ina |-> TRUE] >>
+                [] f = "ge0_nona" -> << [k |-> "ge", arg |-> 0, ina |-> FALSE] >>
+                [] f = "ge1_le5" -> << [k |-> "ge", arg |-> 1, ina |-> TRUE], [k |-> "le", arg |-> 5, ina |-> TRUE] >>
                 [] OTHER -> <<>>
 
 ---------------------------------------------------------------------------
@@ -135,7 +137,7 @@ Compile(prog, k) ==
 M(p, n) == [pred |-> p, named |-> n]
 Cls(parent, fa, fb, cfg, chk, dfc, prs) == [parent |-> parent, fa |-> fa, fb |-> fb, cfg |-> cfg, chk |-> chk, dfc |-> dfc, prs |-> prs]
 
-RootFA == {F("Series[int]", "ge0"), F("Series[int]", "omitted"), F("Optional[Series[int]]", "nullable_coerce"),
+RootFA == {F("Series[int]", "ge0"), F("Series[float]", "ge0_nona"), F("Series[int]", "omitted"), F("Optional[Series[int]]", "nullable_coerce"),
            F("Index[int]", "default"), F("int", "alias_x")}
 RootFB == {Inherit, F("Series[str]", "default")}
 RootCfg == {{}, {<<"strict", "T">>, <<"coerce", "T">>}, {<<"ordered", "T">>, <<"name", "nm">>}}
@@ -144,7 +146,7 @@ RootDfc == {NoMethod, M("sum_pos", FALSE)}
 RootPrs == {NoMethod, M("abs", FALSE)}
 Roots == {Cls(0, fa, fb, cfg, chk, dfc, prs) : fa \in RootFA, fb \in RootFB, cfg \in RootCfg, chk \in RootChk,
                                                   dfc \in RootDfc, prs \in RootPrs}
-KidFA == {Inherit, F("Series[float]", "ge1_le5"), F("Series[int]", "omitted"), F("Series[int]", "unique"), F("Index[int]", "default")}
+KidFA == {Inherit, F("Series[float]", "ge1_le5"), F("Series[float]", "ge0_nona"), F("Series[int]", "omitted"), F("Series[int]", "unique"), F("Index[int]", "default")}
 KidFB == {Inherit, F("Series[str]", "nullable_coerce")}
 KidCfg == {{}, {<<"strict", "filter">>}, {<<"coerce", "F">>, <<"add_missing_columns", "T">>}, {<<"name", "kid">>}}
 KidChk == {NoMethod, M("even", FALSE), M("even", TRUE)}
